@@ -940,6 +940,24 @@ def run(ctx) -> None:
     check_registry(ctx)
     check_writers_read_only(ctx)
     check_result_file_identity(ctx)
+    ctx.rule('J5', 'the unit conversion of outputs is idempotent: a Quantity built from p.value names p.CurrentUnits and the test for "already in '
+                   'the requested unit" compares with CurrentUnits - the add-on and S-DAC-GT writers convert again after the main report was '
+                   'written, so a conversion that starts from PreferredUnits would change the values between the report and the JSON (C09 W7)')
+    from rules.units_common import check_quantity_source_unit
+    n5 = check_quantity_source_unit(ctx, 'J5')
+    _cu = ctx.repo.method('Outputs', '_convert_units', 'geophires_x/Outputs.py') if 'Outputs' in ctx.repo.classes else None
+    if _cu is not None:
+        for _c in ast.walk(_cu.node):
+            if isinstance(_c, ast.Compare) and len(_c.ops) == 1 and isinstance(_c.ops[0], (ast.NotEq, ast.Eq)):
+                _sides = [norm(_c.left), norm(_c.comparators[0])]
+                if any('ParameterDict[' in x for x in _sides) and any(x.endswith(('CurrentUnits', 'PreferredUnits')) for x in _sides):
+                    n5 += 1
+                    ctx.check(any(x.endswith('.CurrentUnits') for x in _sides), 'J5', 'Outputs._convert_units/already-converted-test-uses-CurrentUnits',
+                              f'{_cu.module.rel}:{_c.lineno}',
+                              f'`{norm(_c)[:90]}` decides whether an output still has to be converted by comparing the requested unit with PreferredUnits: '
+                              f'after the first conversion the test still holds, so every later call converts the already converted value again',
+                              fact='requested unit compared with CurrentUnits')
+    ctx.floor('J5', n5, 3, 'quantity sites / conversion tests')
     ctx.undecided('parsing of arbitrary numeric spellings by _parse_number', 'cell widths overflowing for very large numbers (covered only '
                   'through literal separators, C09 W4)')
     ctx.exhaustive = True
